@@ -4,6 +4,7 @@ import WaVerif.Lemmas.C13Spec
 import WaVerif.Lemmas.C13Tree
 import WaVerif.Lemmas.C13Rotate
 import WaVerif.Lemmas.C13Insert
+import WaVerif.Lemmas.C13Slots
 /-!
 # C13 — property theorems (runtime maps behave as finite maps)
 
@@ -259,6 +260,52 @@ theorem witness_pinned_behaviour :
     C13RB.lookup s 4 = some 40 ∧ C13RB.lookup s 5 = none ∧ len s = 9 ∧
     slots s = [(1, 10), (2, 20), (3, 30), (10, 100), (5, 50), (6, 60), (7, 70), (8, 80), (9, 90)] ∧
     wf s = false := by decide
+
+
+/-- PARTIAL refinement that holds of the pinned code for EVERY shape of the tree (two-child nodes
+included): the slot level.  If `search` finds node `z` for `k` and `z` sits in its own slot
+(`nodes = NIL :: A ++ z :: C`, `z.NodeIdx = |A| + 1`, no key `k` before it), then the slot list — what
+`len` and `range` observe — after `Delete` is exactly the specification's swap-with-last `delete`.
+(The tree surgery of `delete(z)`, fix-up loop included, never touches `nodes`, `Key`, `Val`, `NodeIdx`.) -/
+theorem delete_slots_refine (s : St) (k : Int) (z : Nat) (A C : List Nat)
+    (hs : search s k = some z) (hz : z ≠ 0)
+    (hN : s.nodes.toList = 0 :: (A ++ z :: C)) (hidx : (s.nd z).idx = A.length + 1)
+    (hk : (s.nd z).key = k) (hA : k ∉ keys (A.map (kv s))) :
+    slots (C13RB.delete false s k) = C13Spec.delete k (slots s) ∧
+    len (C13RB.delete false s k) = len s - 1 := by
+  obtain ⟨z', rfl⟩ : ∃ z', z = z' + 1 := ⟨z - 1, by omega⟩
+  have hd : C13RB.delete false s k = vacate (treeDelete false s (z' + 1)).1 (treeDelete false s (z' + 1)).2 := by
+    unfold C13RB.delete; rw [hs]
+  have hkv := sameKV_treeDelete_pinned s (z' + 1)
+  rw [hd, treeDelete_pinned_snd]
+  have hN1 : (treeDelete false s (z' + 1)).1.nodes.toList = 0 :: (A ++ (z' + 1) :: C) := by rw [hkv.nodes]; exact hN
+  have hidx1 : ((treeDelete false s (z' + 1)).1.nd (z' + 1)).idx = A.length + 1 := by rw [hkv.idx]; exact hidx
+  have hmap : ∀ L : List Nat, L.map (kv (treeDelete false s (z' + 1)).1) = L.map (kv s) :=
+    fun L => List.map_congr_left (fun q _ => kv_of_sameKV hkv q)
+  have hzkv : kv s (z' + 1) = (k, (s.nd (z' + 1)).val) := by simp [kv, hk]
+  constructor
+  · rcases List.eq_nil_or_concat C with rfl | ⟨B, l, hC⟩
+    · rw [vacate_slots_last _ _ A hN1 hidx1, hmap, slots_eq, hN]
+      simp only [List.drop_succ_cons, List.drop_zero, List.map_append, List.map_cons, List.map_nil, hzkv]
+      exact (delete_last _ _ hA).symm
+    · rw [List.concat_eq_append] at hC
+      subst hC
+      have hN2 : (treeDelete false s (z' + 1)).1.nodes.toList = 0 :: (A ++ (z' + 1) :: B ++ [l]) := by
+        rw [hN1]; simp
+      rw [vacate_slots_middle _ _ A B l hN2 hidx1, hmap, hmap, kv_of_sameKV hkv, slots_eq, hN]
+      simp only [List.drop_succ_cons, List.drop_zero, List.map_append, List.map_cons, List.map_nil, hzkv]
+      have := delete_middle (s.nd (z' + 1)).val (A.map (kv s)) (B.map (kv s)) (kv s l) hA
+      simp only [List.append_assoc, List.cons_append] at this ⊢
+      exact this.symm
+  · unfold C13RB.len
+    have : (vacate (treeDelete false s (z' + 1)).1 (z' + 1)).nodes.size = s.nodes.size - 1 := by
+      rw [vacate_nodes]; split <;> simp [hkv.nodes]
+    rw [this]
+
+/-- the hypotheses hold on the witness (node 4 = pointer 4 sits in slot 4, two children) -/
+example : let s := C13RB.run false witnessSets
+    search s 4 = some 4 ∧ s.nodes.toList = 0 :: ([1, 2, 3] ++ 4 :: [5, 6, 7, 8, 9, 10]) ∧ (s.nd 4).idx = [1, 2, 3].length + 1 ∧
+    (s.nd 4).key = 4 ∧ (4 : Int) ∉ keys ([1, 2, 3].map (kv s)) := by decide
 
 /-- the full statement is FALSE of the pinned code (`fixed = false`) -/
 theorem delete_refines_spec_false : ¬ DeleteRefinesSpec false := by
